@@ -29,6 +29,7 @@ func (dp decProp) body(o decOpts, st *propStats) func(t *rapid.T) {
 		c := DecCase{Vehicle: o.vehicle, Cfg: genDCfg(t)}
 		if o.vehicle == "dec" {
 			c.Writer = genWriterScript(t, o.faults)
+			c.WriterFlush = o.faults && rapid.IntRange(0, 3).Draw(t, "writerFlush") == 0
 		} else if o.preCap != nil {
 			c.PreCap = rapid.SampledFrom(o.preCap).Draw(t, "preCap")
 		} else if rapid.IntRange(0, 7).Draw(t, "withArray") == 0 {
@@ -268,7 +269,7 @@ func TestC07(t *testing.T) { propC07.run(t) }
 func TestC18Enum(t *testing.T) {
 	st := statsFor("C18")
 	rapid.Check(t, func(t *rapid.T) {
-		c := DecCase{Vehicle: "dec", Cfg: genDCfg(t)}
+		c := DecCase{Vehicle: "dec", Cfg: genDCfg(t), WriterFlush: rapid.Bool().Draw(t, "writerFlush")}
 		if c.Cfg.WindowSize > 16 {
 			c.Cfg.WindowSize = 1 + c.Cfg.WindowSize%16
 			if c.Cfg.BufferSize != 0 && c.Cfg.BufferSize <= c.Cfg.WindowSize {
